@@ -13,11 +13,35 @@
 struct keys_ghost;
 static char * keys_strdup(const char *);
 static void keys_free(void *);
+/*
+ * strchr as aws_readkeys.c calls it: same semantics (C11 7.24.5.2) and same bounded scan as models/libc_string.c,
+ * but the result is formed by a pointer cast, not by a round trip through uintptr_t.  CBMC decodes an integer back
+ * into a pointer as "any object", so every later access through the result (`*p++ = 0`, strdup(p), strlen(p))
+ * becomes a case split over all objects of the program: measured 11 M clauses for a one-line file, 70 M for two
+ * lines, out of memory (16 GB) for three.
+ */
+static char *
+keys_strchr(const char * s, int c)
+{
+	size_t i;
+
+	for (i = 0; i < VERIF_STRMAX; i++) {
+		if (s[i] == (char)c)
+			return ((char *)s + i);
+		if (s[i] == '\0')
+			return (NULL);
+	}
+	__CPROVER_assert(0, "MODEL-BOUND keys_strchr: scan reached VERIF_STRMAX");
+	__CPROVER_assume(0);
+	return (NULL);
+}
 #define strdup keys_strdup
 #define free keys_free
+#define strchr keys_strchr
 #include "aws/aws_readkeys.c"
 #undef strdup
 #undef free
+#undef strchr
 struct keys_ghost g_keys;
 
 #pragma CPROVER check push
